@@ -10,8 +10,10 @@ import itertools
 from vlib.framework import BaseCheck, CaseResult
 
 IDLE, OPEN, BUSY, CLOSED = 1, 2, 3, 4
-SERIAL_SKELETONS = ['open', 'one', 'two', 'after-timeout', 'chunked', 'timeout-in-write', 'expired-on-arrival']
-MUX_SKELETONS = ['open', 'one', 'three', 'timed-out+one', 'queued', 'ping', 'silent-inflight', 'requests-while-opening']
+SERIAL_SKELETONS = ['open', 'one', 'two', 'after-timeout', 'chunked', 'timeout-in-write', 'expired-on-arrival',
+                    'retry-from-handler']
+MUX_SKELETONS = ['open', 'one', 'three', 'timed-out+one', 'queued', 'ping', 'silent-inflight', 'requests-while-opening',
+                 'retry-from-handler']
 FAULTS = ['error', 'eof', 'refuse', 'silence']
 OPS = [('connect', 0)] + [('send', i) for i in range(4)] + [('recv', i) for i in range(10)]
 
@@ -42,7 +44,7 @@ PLAN = build_plan()
 class C08(BaseCheck):
   ID = 'C08'
   LEVEL = 'fault_enumeration'
-  RULE = ('enumerated space = {serial Thrift transport x skeletons open/one/two/after-timeout/chunked/timeout-in-write (deadline fires inside a blocked partial write)/expired-on-arrival (deadline already past when the request reaches the transport), '
+  RULE = ('enumerated space = {serial Thrift transport x skeletons open/one/two/after-timeout/chunked/timeout-in-write (deadline fires inside a blocked partial write)/expired-on-arrival (deadline already past when the request reaches the transport)/retry-from-handler (the error handler of a failed request hands a follow-up to the transport synchronously, below the timeout sink), '
           'ThriftMux transport x skeletons open(incl. initial ping)/one/three concurrent/timed-out+one/'
           'queued(stalled writer)/ping/requests-while-opening/silent-inflight (peer goes silent with a request in flight and a timed-out one unacknowledged)} + {reply and close (FIN/RST) in one instant on request 0/1/2} x connection ordinal {0,1} x op {connect; send 0-3; recv 0-9} x fault '
           '{exception, EOF, refusal, silence}; quick and thorough both sweep it completely (thorough adds '
@@ -62,7 +64,7 @@ class C08(BaseCheck):
   REQUIRED_ANCHORS = ANCHORS
   REQUIRED_CLASSES = ('thrift', 'mux', 'fault:connect', 'fault:send', 'fault:recv', 'kind:error', 'kind:eof',
                       'kind:refuse', 'kind:silence', 'reconnect-fault', 'probe', 'ping-silence', 'reply-and-close-same-instant', 'timeout-in-write', 'silent-with-inflight', 'requests-while-opening',
-                      'expired-on-arrival')
+                      'expired-on-arrival', 'retry-from-handler')
   ASSUMPTIONS = ('a silence fault (peer stops answering without closing) legitimately leaves the transport '
                  'open; only the probe clause applies then',)
   QUICK_WALL = 180
@@ -134,6 +136,15 @@ class C08(BaseCheck):
       def AsyncProcessResponse(self, sink_stack, context, stream, msg):
         context['deliveries'].append((env.now, env.emit('stack.deliver', rid=context['id'],
                                                        err=type(msg.error).__name__ if msg.error else None)['seq'], msg))
+        if sk == 'retry-from-handler' and msg.error is not None and not retried and len(context['deliveries']) == 1:
+          # the caller's error handler retries at once, synchronously, from inside the completion of
+          # the failed request: whatever state the transport shows at that instant, the retry
+          # is completed exactly once
+          retried.append(context['id'])
+          classes.add('retry-from-handler')
+          # (handed over below the timeout sink and with a far deadline, so that only the transport can
+          # complete it)
+          request(T=600.0, inline=True, entry=top.next_sink)
     term = Term()
 
     class RecStack(ClientMessageSinkStack):
@@ -144,7 +155,9 @@ class C08(BaseCheck):
           self.late.append((env.now, 'stream' if msg is None else type(getattr(msg, 'error', None)).__name__))
         return ClientMessageSinkStack.AsyncProcessResponse(self, stream, msg)
 
-    def request(T=1.0, act=None, entry=None):
+    retried = []
+
+    def request(T=1.0, act=None, entry=None, inline=False):
       key = 'k%d-%d' % (len(reqs), rng.getrandbits(16))
       if act is not None:
         plan[key] = act
@@ -158,7 +171,10 @@ class C08(BaseCheck):
       st.late = r['late'] = []
       st.Push(term, r)
       r['issue_seq'] = env.emit('req.issue', rid=r['id'])['seq']
-      gevent.spawn((entry or top).AsyncProcessRequest, st, msg, None, {})
+      if inline:
+        (entry or top).AsyncProcessRequest(st, msg, None, {})
+      else:
+        gevent.spawn((entry or top).AsyncProcessRequest, st, msg, None, {})
       return r
 
     def check_state(where):
@@ -237,6 +253,11 @@ class C08(BaseCheck):
       elif sk == 'chunked':
         request(act={'delay': 0.001, 'chunks': [(1, 0.001), (3, 0.001), (5, 0.002), (7, 0.0)]})
         env.advance(1.5)
+      elif sk == 'retry-from-handler':
+        request()
+        env.advance(1.5)
+        request()
+        env.advance(1.5)
       elif sk == 'expired-on-arrival':
         # a request whose deadline has already passed when it reaches the transport (it expired in
         # a pool queue or while the connection opened): failed once, the transport stays usable
@@ -267,6 +288,12 @@ class C08(BaseCheck):
       elif sk == 'three':
         for _ in range(3):
           request(act={'delay': 0.005})
+        env.advance(1.5)
+      elif sk == 'retry-from-handler':
+        for _ in range(2):
+          request(act={'delay': 0.005})
+        env.advance(1.5)
+        request()
         env.advance(1.5)
       elif sk == 'timed-out+one':
         request(T=0.05, act={'drop': True})
